@@ -1112,6 +1112,11 @@ def infer_base_unit(
 
     for unit_name, power in original_units.items():
         candidates = registry.parse_unit_name(unit_name)
+        # An exactly defined name denotes that unit (cf. get_name), also when it can be
+        # read as prefix + unit or as a plural as well ('dtex', 'rads').
+        exact = [c for c in candidates if c == ("", unit_name, "")]
+        if exact:
+            candidates = exact
         assert len(candidates) == 1
         _, base_unit, _ = candidates[0]
         d[base_unit] += power
